@@ -784,9 +784,10 @@ class Renderer:
         else:
             btxt = self.render_block(body, entry, self.stmt_text("exit"), unit="ret_ty" not in node)
         if self.self_name != "self":
-            btxt = re.sub(r"\bself\b", "this", btxt)
+            # rename in the code only: clause text (between markers) keeps talking about `self`, the parameter
+            parts = re.split(r"(/\*<[^>/][^>]*>\*/.*?/\*</[^>]*>\*/)", btxt, flags=re.S)
+            btxt = "".join(x if x.startswith("/*<") else re.sub(r"\bself\b", "this", x) for x in parts)
             btxt = btxt.replace("let mut this = this;", "let mut this = self;", 1)
-            # clause text keeps talking about `self` (the parameter)
         btxt = self.subst_assoc(btxt)
         attrs = "".join(a["text"] + "\n" for a in node["attrs"] if a["path"] in ("inline",))
         attrs += "".join(s.text for s in self.secs("attr") if self._use(s))
